@@ -58,6 +58,11 @@ def family():
     out = []
     lists = [["L", [r], None] for r in recs]
     lists += [["L", [r, q], None] for r in recs[:5] for q in recs[:6]]
+    # identities that are different Strings but the same number once typed
+    r110 = ["M", [["a", S("1.10")], ["b", S(1)]], None]
+    r11 = ["M", [["a", S("1.1")], ["b", S(2)]], None]
+    lists += [["L", [r110], None], ["L", [r11], None],
+              ["L", [r110, r11], None]]
     for lst in lists:
         out.append(lst)
         out.append(["M", [["a", lst]], None])
